@@ -246,9 +246,24 @@ func genSpec(ch *simrt.Chooser, consistent bool) (*tls.ClientHelloSpec, string) 
 				}
 			case *tls.ALPNExtension:
 				if which == 4 {
-					n := []int{255, 256, 300}[ch.Pick(3, "alpn-proto-len")]
-					x.AlpnProtocols = []string{strings.Repeat("p", n)}
-					desc = append(desc, fmt.Sprintf("oversize-alpn-proto=%d", n))
+					switch k := ch.Pick(5, "alpn-shape"); k {
+					case 3:
+						// an empty protocol name (ProtocolName<1..2^8-1>) cannot be encoded
+						x.AlpnProtocols = []string{"h2", "", "http/1.1"}
+						desc = append(desc, "alpn-empty-name")
+					case 4:
+						// names that are fine one by one, a list beyond its 16-bit length
+						nn := []int{257, 262, 300}[ch.Pick(3, "alpn-names")]
+						x.AlpnProtocols = nil
+						for i := 0; i < nn; i++ {
+							x.AlpnProtocols = append(x.AlpnProtocols, fmt.Sprintf("%03d", i)+strings.Repeat("q", 251))
+						}
+						desc = append(desc, fmt.Sprintf("oversize-alpn-list=%d", nn*255))
+					default:
+						n := []int{255, 256, 300}[k]
+						x.AlpnProtocols = []string{strings.Repeat("p", n)}
+						desc = append(desc, fmt.Sprintf("oversize-alpn-proto=%d", n))
+					}
 				}
 			}
 		}
@@ -274,6 +289,22 @@ func genSpec(ch *simrt.Chooser, consistent bool) (*tls.ClientHelloSpec, string) 
 	if ch.Bool(55, "x-padding") {
 		exts = append(exts, &tls.UtlsPaddingExtension{GetPaddingLen: tls.BoringPaddingStyle})
 		desc = append(desc, "padding")
+	}
+	if tls13 && !consistent && ch.Bool(12, "x-fake-psk") {
+		// a pre_shared_key extension copied from a capture (FakePreSharedKeyExtension): 1-3 identities
+		// whose binders belong to tickets of different hashes (32 and 48 bytes); always last
+		n := ch.Range(1, 3, "fake-psk-n")
+		psk := &tls.FakePreSharedKeyExtension{}
+		for i := 0; i < n; i++ {
+			label := make([]byte, ch.Range(1, 140, "fake-psk-label-len"))
+			ch.Bytes(label, "fake-psk-label")
+			psk.Identities = append(psk.Identities, tls.PskIdentity{Label: label, ObfuscatedTicketAge: uint32(ch.U64("fake-psk-age"))})
+			b := make([]byte, []int{32, 48, 32, 64}[ch.Pick(4, "fake-psk-binder-len")])
+			ch.Bytes(b, "fake-psk-binder")
+			psk.Binders = append(psk.Binders, b)
+		}
+		exts = append(exts, psk)
+		desc = append(desc, fmt.Sprintf("fake-psk=%d", n))
 	}
 	spec.Extensions = exts
 	return spec, fmt.Sprintf("tls13=%v suites=%d exts=%s", tls13, len(cs), strings.Join(desc, ","))
